@@ -485,6 +485,22 @@ func FalseRuleVariants(n *model.Node) []*model.Node {
 			out = append(out, c)
 		}
 	}
+	// two false-valued rules side by side (every pair, both orders), at every position
+	for i, a := range cands {
+		for j, b := range cands {
+			if i == j {
+				continue
+			}
+			for pos := 0; pos <= len(n.Rules); pos++ {
+				c := n.Clone()
+				rs := append([]*model.Rule{}, c.Rules[:pos]...)
+				rs = append(rs, model.RBool(a, false), model.RBool(b, false))
+				rs = append(rs, c.Rules[pos:]...)
+				c.Rules = rs
+				out = append(out, c)
+			}
+		}
+	}
 	return out
 }
 
